@@ -41,7 +41,11 @@ def handle (st : Driver.St) (op : String) (args : List String) (_impl : Option S
     Option (Driver.St × Out) :=
   match op, args with
   | "life", [h] =>
-    let ops := (h.splitOn ";").filterMap parseOp
+    -- `…M`: a reload with an acquisition attempted while it runs; the acquisition waits for the
+    -- reload (reloadMu), i.e. it happens right after it
+    let expand (t : String) : List String :=
+      if t.endsWith "M" then [(t.dropEnd 1).toString, "acq"] else [t]
+    let ops := ((h.splitOn ";").flatMap expand).filterMap parseOp
     let s := run ops
     let bs := s.backends.map fun b => s!"{b.closes}/{b.badUses}"
     some (st, { model := s!"readers={s.readers.length} backends=[{", ".intercalate bs}]", spec := specVerdict s })
